@@ -50,7 +50,7 @@ func c03LongTables(c *vk.Ctx) {
 			d, st := monitorSession(c, a, cfg, hist, sessOpts{Driver: drv})
 			c.Eval(vk.Hash64(key, drv), true)
 			c.Count("long_table_requests", int64(st.Requests))
-			c.Max("longest_routing_table_lines", int64(n))
+			c.Max("max_routing_table_lines", int64(n))
 			if d == nil {
 				continue
 			}
